@@ -133,7 +133,7 @@ def execute(prog, order, devs, strategy=None):
 def run_fork(nchildren, warm):
     """A process that has already logged forks workers; parent and children start new tasks and log
     context-less messages into one shared append-mode file: (task_uuid, task_level) must stay unique
-    run-wide.  Uses the real uuid4 (the counter seam would be copied by fork)."""
+    run-wide.  Uses eliot's own id source, i.e. whatever eliot._action.uuid4 was at import (the counter seam would be copied by fork)."""
     import os
     import json
     import uuid
@@ -144,7 +144,7 @@ def run_fork(nchildren, warm):
     tmp = tempfile.mkdtemp(prefix="vk_c02_", dir="/var/tmp")
     path = os.path.join(tmp, "log")
     world.fresh()
-    _action.uuid4 = uuid.uuid4
+    _action.uuid4 = world.ORIGINAL_UUID4 if world.ORIGINAL_UUID4 is not None else uuid.uuid4
     try:
         f = open(path, "ab")
         eliot.add_destinations(FileDestination(file=f))
